@@ -69,6 +69,11 @@ class _Fold(ast.NodeTransformer):
         b = self._bound(node)
         if b is not None:
             return b
+        # a class level literal tuple read through self / cls (assigned nowhere else in the module)
+        if isinstance(node.ctx, ast.Load) and isinstance(node.value, ast.Name) and node.value.id in ('self', 'cls') and \
+                isinstance(self.tables.get('.' + node.attr), (ast.Tuple, ast.List)) and _lit(self.tables['.' + node.attr]) is not _MISSING:
+            self.changed = True
+            return _copy_tree(self.tables['.' + node.attr])
         self.generic_visit(node)
         return node
 
